@@ -227,6 +227,20 @@ func (c *Ctx) theHandlerClosure(f *ssa.Function) *ssa.Function {
 			hs = append(hs, a)
 		}
 	}
+	if len(hs) == 0 {
+		// the literal was moved into a constructor helper unknown to the baseline: look through it
+		seen := map[*ssa.Function]bool{}
+		for _, in := range instrs(f) {
+			if callee := transparentCallee(in); callee != nil && !seen[callee] {
+				seen[callee] = true
+				for _, a := range callee.AnonFuncs {
+					if isHandlerSig(a.Signature) {
+						hs = append(hs, a)
+					}
+				}
+			}
+		}
+	}
 	if len(hs) != 1 {
 		fatalf("anchor: expected exactly one http handler literal in %s, found %d", f, len(hs))
 	}
@@ -235,3 +249,34 @@ func (c *Ctx) theHandlerClosure(f *ssa.Function) *ssa.Function {
 
 // typeStr renders a type with the module path abbreviated.
 func typeStr(t types.Type) string { return short(types.TypeString(t, nil)) }
+
+// codecFuncOf returns the function implementing a codec built by constructor outer: the func literal with nParams
+// parameters and nResults results declared in it, or — when the literal was turned into a named function — the named
+// function of that signature which outer converts to the codec's func type.
+func codecFuncOf(outer *ssa.Function, nParams, nResults int) *ssa.Function {
+	var f *ssa.Function
+	for _, a := range outer.AnonFuncs {
+		if a.Signature.Params().Len() == nParams && a.Signature.Results().Len() == nResults {
+			f = a
+		}
+	}
+	if f != nil {
+		return f
+	}
+	for _, in := range ownInstrs(outer) {
+		var x ssa.Value
+		switch v := in.(type) {
+		case *ssa.ChangeType:
+			x = v.X
+		case *ssa.MakeInterface:
+			x = v.X
+		}
+		if ct, ok := x.(*ssa.ChangeType); ok {
+			x = ct.X
+		}
+		if fn, ok := x.(*ssa.Function); ok && fn.Blocks != nil && fn.Signature.Params().Len() == nParams && fn.Signature.Results().Len() == nResults {
+			f = fn
+		}
+	}
+	return f
+}
